@@ -395,8 +395,9 @@ func (pr *probRun) finishProb() {
 }
 
 // checkArguments looks at the index arguments of every script call and HMGET the server received: the client builds
-// them as decimal numbers. Anything else means that the argument memory changed between the call and the write. This
-// is reported in variant "deadline" only (see probFaults); elsewhere it would be harness trouble to look into.
+// them as decimal numbers. Anything else means that the argument memory changed between the call and the write: in
+// variant "deadline" because the call had returned (rule arguments-changed-after-return, see probFaults), elsewhere
+// while the call was still under way (rule arguments-changed-before-write).
 func (pr *probRun) checkArguments() {
 	for _, ex := range pr.e.sim.W.Log {
 		if len(ex.Argv) < 3 {
@@ -424,8 +425,10 @@ func (pr *probRun) checkArguments() {
 				msg := fmt.Sprintf("%s: the server received %s (command %d of its log, connection c%d) with index argument %q; arguments %.120q", pr.label, ex.Argv[0], ex.Seq, ex.Conn, a, args)
 				if pr.p.Variant == "deadline" {
 					pr.out.violate(pr.prop, "arguments-changed-after-return", "%s", msg)
-				} else if pr.out.HarnessErr == "" {
-					pr.out.HarnessErr = "unexpected: " + msg
+				} else {
+					// no call of these plans ends before its command is written: the argument memory was handed to
+					// somebody else while the call that built it was still under way
+					pr.out.violate(pr.prop, "arguments-changed-before-write", "%s", msg)
 				}
 				return
 			}
